@@ -40,6 +40,7 @@ pub const MODE_ERROR: u8 = 5; // answers every statement with an ErrorResponse
 pub const MODE_HANG_STARTUP: u8 = 6; // accepts, never completes the startup
 pub const MODE_REFUSE: u8 = 7; // like "down" for the pooler (existing connections are closed, new ones are closed at once) but the port stays bound: no other process can grab it
 pub const MODE_NOREAD: u8 = 8; // C20: established sessions stop reading (the peer's writes fill the TCP buffers and then block); nothing is answered
+pub const MODE_DOWN_HELD: u8 = 9; // C20: like "down" (not listening: connect() is refused by the kernel; existing connections are closed) but the port stays bound by a non-listening socket, so no other process can be given it meanwhile
 
 pub struct Backend {
     pub name: String,
@@ -1001,7 +1002,7 @@ async fn run_session(c: &mut Conn) -> String {
                 Ok(Err(_)) => return "eof".into(),
                 Err(_) => {
                     let m = c.be.mode.load(Ordering::SeqCst);
-                    if m == MODE_DOWN || m == MODE_REFUSE {
+                    if m == MODE_DOWN || m == MODE_REFUSE || m == MODE_DOWN_HELD {
                         return "backend down".into();
                     }
                 }
@@ -1019,7 +1020,7 @@ async fn run_session(c: &mut Conn) -> String {
             return "eof in body".into();
         }
         let mode = c.be.mode.load(Ordering::SeqCst);
-        if mode == MODE_DOWN || mode == MODE_REFUSE {
+        if mode == MODE_DOWN || mode == MODE_REFUSE || mode == MODE_DOWN_HELD {
             return "backend down".into();
         }
         let mut raw = BytesMut::new();
@@ -1384,7 +1385,26 @@ impl Backend {
         let be2 = be.clone();
         tokio::spawn(async move {
             let mut listener = Some(listener);
+            let mut holder: Option<tokio::net::TcpSocket> = None; // C20: keeps the port while "down_held"
             loop {
+                if be2.mode.load(Ordering::SeqCst) == MODE_DOWN_HELD {
+                    if listener.is_some() || holder.is_none() {
+                        listener = None; // stop listening => connection refused ...
+                        if let Ok(addr) = format!("{}:{}", be2.host, be2.port).parse::<std::net::SocketAddr>() {
+                            if let Ok(sock) = tokio::net::TcpSocket::new_v4() {
+                                let _ = sock.set_reuseaddr(true);
+                                if sock.bind(addr).is_ok() {
+                                    holder = Some(sock); // ... while a bound, non-listening socket reserves the port
+                                }
+                            }
+                        }
+                    }
+                    tokio::time::sleep(std::time::Duration::from_millis(5)).await;
+                    continue;
+                }
+                if holder.is_some() {
+                    holder = None;
+                }
                 if be2.mode.load(Ordering::SeqCst) == MODE_DOWN {
                     listener = None; // stop listening => connection refused
                     tokio::time::sleep(std::time::Duration::from_millis(5)).await;
@@ -1426,6 +1446,7 @@ impl Backend {
             "hang_startup" => MODE_HANG_STARTUP,
             "refuse" => MODE_REFUSE,
             "noread" => MODE_NOREAD,
+            "down_held" => MODE_DOWN_HELD,
             _ => MODE_NORMAL,
         };
         self.mode.store(v, Ordering::SeqCst);
